@@ -305,3 +305,92 @@ def chunk(seq, n):
     n = max(1, n)
     k = (len(seq) + n - 1) // n
     return [seq[i:i + k] for i in range(0, len(seq), k)] if k else []
+
+
+# ---------------------------------------------------------------- generic family pipeline
+
+def simple_family(run, fam, replay=None):
+    """fam: dict with
+      mc: list of (module, cfg_text, tag) run exhaustively by TLC (cases exported as CASE lines)
+      mc_must_violate: list of (module, cfg_text, tag, what) counter-models TLC must refute
+      driver, plans(cases, run) -> list of (name, plan, env_extra, race)
+      trace_module, reg_names, eval_counter, nontrivial_counter
+      rule, assumptions, sample(ev) -> dict or None, signatures {id: fn(ev, mis)}
+      split(events, n) -> shards     (default: even chunks; traces without cross-event state)
+      replay_plan(replay) -> plan
+    """
+    known = load_known()
+    cases = []
+    mc_info = []
+    if replay is None:
+        for module, cfg, tag in fam.get("mc", {}).get(run.tier, []):
+            r = tlc(run, module, cfg, workers=NCPU, heap="6g", tag=tag)
+            if r.violated:
+                raise Infra("design check failed: %s violates %s - the specification itself is inconsistent "
+                            "(independent of /repo)\n%s" % (tag, r.violated, "\n".join(r.lines[-60:])))
+            mc_info.append({"config": tag, "states": r.distinct, "cases_exported": len(r.cases)})
+            cases.extend(r.cases)
+        for module, cfg, tag, what in fam.get("mc_must_violate", {}).get(run.tier, []):
+            r = tlc(run, module, cfg, workers=NCPU, heap="6g", tag=tag, expect_violation=True)
+            if not r.violated:
+                raise Infra("vacuity: counter-model %s (%s) was NOT refuted by TLC" % (tag, what))
+            mc_info.append({"config": tag, "counter_model": what, "refuted_by": r.violated, "states": r.distinct})
+        plans = fam["plans"](cases, run)
+    else:
+        plans = fam["replay_plan"](replay, run)
+    events = []
+    for name, plan, env_extra, race in plans:
+        vh = build_harness(run, race=race)
+        path = run_harness(run, vh, fam["driver"], plan, fam["driver"] + "-" + name, env_extra=env_extra,
+                           seed=plan.pop("_seed", None))
+        evs = read_ndjson(path)
+        for ev in evs:
+            ev["_src"] = name
+        events.extend(evs)
+    clean = [{k: v for k, v in ev.items() if not k.startswith("_")} for ev in events]
+    split = fam.get("split") or (lambda evs, n: chunk(evs, n))
+    shards = split(clean, NCPU)
+    mismatches, consumed = validate_shards(run, fam["trace_module"], shards, reg_names=fam["reg_names"],
+                                           const=fam.get("trace_const", ""))
+    for ev, mis in mismatches:
+        clause = mis["clause"]
+        if clause.split(".")[0] != run.prop:
+            run.other[clause] = run.other.get(clause, 0) + 1
+            continue
+        hit = None
+        for k in known:
+            fn = fam.get("signatures", {}).get(k["id"])
+            if fn and k["property"] == run.prop and fn(ev, mis):
+                hit = k
+                break
+        if hit:
+            n, _ = run.known.get(hit["id"], (0, hit["summary"]))
+            run.known[hit["id"]] = (n + 1, hit["summary"])
+            continue
+        payload = {"family": fam["name"], "property": run.prop, "clause": clause, "event": ev, "mismatch": mis}
+        if fam.get("replay_context"):
+            payload["context"] = fam["replay_context"](ev, clean)
+        path = write_replay(run, clause, payload)
+        run.violations.append((clause, path, json.dumps(ev)[:400]))
+    samples = []
+    for ev in clean:
+        s = fam["sample"](ev)
+        if s is not None and len(json.dumps(s)) < 3000:
+            samples.append(s)
+        if len(samples) >= 3:
+            break
+    cov = {
+        "evaluations": run.cov.get(fam["eval_counter"], 0),
+        "distinct_nontrivial": run.cov.get(fam["nontrivial_counter"], 0),
+        "rule": fam["rule"],
+        "samples": samples,
+        "traces_validated_against_impl": fam["count_traces"](clean) if fam.get("count_traces") else len(clean),
+        "exhaustive": False,
+        "mc": mc_info,
+        "events_consumed_by_trace_spec": consumed,
+        "trace_counters": dict(run.cov),
+        "explanation": fam.get("explanation", ""),
+    }
+    if fam.get("extra_cov"):
+        cov.update(fam["extra_cov"](clean, cases))
+    return finish(run, "model_checking", cov, fam["assumptions"])
